@@ -283,7 +283,11 @@ func runC17(rc *RunCtx) {
 	weights := []int{2, 5, 5, 2, 3, 2, 2, 1, 1, 2, 1, 2}
 	rc.StepLoop(4, 18, func(i int) {
 		ww.step = i
-		ww.Step(T.Pick("step.kind", weights...))
+		if T.Chance("imelt", 1, 12) {
+			ww.StepInternalMelt()
+		} else {
+			ww.Step(T.Pick("step.kind", weights...))
+		}
 		ww.CheckWallets("step")
 	})
 	ww.Settle()
